@@ -11,6 +11,13 @@ where
 {
     (b.a, b.b, b.switched_params)
 }
+/// true iff the sampler uses Cheng's algorithm BC (documented for min(alpha, beta) <= 1)
+pub(crate) fn beta_is_bc<F: Float>(b: &Beta<F>) -> bool
+where
+    Open01: Distribution<F>,
+{
+    matches!(b.algorithm, BetaAlgorithm::BC(_))
+}
 
 macro_rules! c04_beta {
     ($name:ident, $f:ty) => {
